@@ -512,3 +512,42 @@ def run_ids(incoming):
     if isinstance(incoming, dict):
         incoming = (incoming.get("completed"), incoming.get("halted"), incoming.get("updated"))
     return [[r.run_id for r in part] for part in incoming]
+
+
+def streaming_junk_probe(trecv, nrecv, chunk, dt, payload=None):
+    """An unauthenticated client that keeps delivering `chunk` junk bytes every `dt` seconds (never a complete
+    message) for longer than the receive timeout, then a valid SYNC on a fresh connection.  Free-running clock.
+    -> dict(finish = seconds after accept at which the junk connection was given up (None: never returned),
+            delivered_junk, valid_queued, peers_unchanged_by_junk)"""
+    import math
+    dist, dec = make_stepped(3, me=0, timeout_receive=trecv, recv_bytes=nrecv)
+    if hasattr(dist, "mark_running"):
+        dist.mark_running()
+    clock = FakeClock(start=1000.0, tick=0.01)
+    k = int(math.ceil((trecv * 4 + 4) / dt)) + 2
+    junk = bytes((7 + i) % 251 or 1 for i in range(chunk)).replace(b"B", b"c")
+    script = [Delayed(dt, junk) for _ in range(k)] + [TIMEOUT]
+    client = ScriptedClient(script, clock)
+    before = dist.peer_state()
+    hung, finish = False, None
+    with installed(None, clock):
+        try:
+            dist.handle_client(client, "10.6.6.6", 1000)
+        except BlockedForever:
+            hung = True
+        except Exception:       # noqa  the timeout / system error of a rejected client
+            pass
+    if not hung:
+        finish = clock.now - 1000.0
+    unchanged = dist.peer_state() == before and len(dist.incoming_items()) == 0
+    valid = wire_message(dist._crypto, "dev1", "key1", 0, 0, payload or payload_json(updated=[make_run_serial(5, "v")]))
+    clock2 = FakeClock(start=clock.now + 1.0, tick=0.01)
+    ok = ScriptedClient([valid], clock2)
+    with installed(None, clock2):
+        try:
+            dist.handle_client(ok, "10.1.1.1", int(clock2.now))
+        except BaseException as e:  # noqa
+            if isinstance(e, (KeyboardInterrupt, SystemExit)):
+                raise
+    return dict(finish=finish, hung=hung, valid_queued=len(dist.incoming_items()) == 1, peers_unchanged_by_junk=unchanged,
+                recvs=sum(1 for e in client.log if e[0] == "recv"))
